@@ -853,6 +853,16 @@ func (x *Exec) applyContract(st *State, fr *Frame, at ssa.Instruction, name stri
 			sc.vars["err"] = r
 		}
 	}
+	if rn := recordedResultNames(name); len(rn) == len(res) {
+		for i, n := range rn {
+			if n == "" || n == "_" {
+				continue
+			}
+			if _, ok := sc.vars[n]; !ok {
+				sc.vars[n] = res[i]
+			}
+		}
+	}
 	if len(res) > 0 {
 		if _, ok := sc.vars["result"]; !ok {
 			sc.vars["result"] = res[0]
